@@ -7,7 +7,7 @@ import vplib
 PID = "C19"
 ENGINE = "conc"
 RULE = ("(a) raw Observer: 2-3 threads each issuing 1-3 calls of next/error/complete/unsubscribe on one observer, every program with at least "
-        "one terminal; small programs exhaustively over all schedules (DFS on the runtime's decisions), the others under random and PCT "
+        "one terminal, half of the random ones with a further thread that polls is_subscribed; small programs exhaustively over all schedules (DFS on the runtime's decisions), the others under random and PCT "
         "schedules; (b) families: merge / zip / amb / flat_map / concat inputs, a source racing the trigger of take_until / skip_until / "
         "sample, and the four subject kinds with next racing error/complete, each fed from 2-3 threads; callbacks are stamped start/return "
         "in log order; non-trivial = an observation (projected to the sequence of callback starts) in which a terminal callback ran and at "
@@ -53,6 +53,9 @@ def generate(rng, tier, seed):
         progs = [[rng.choice(CALLS) for _ in range(rng.randrange(1, 4))] for _ in range(nt)]
         if not any(x[0] in ("oerror", "ocomplete") for p in progs for x in p):
             progs[0].append(rng.choice([["oerror", 0, 5], ["ocomplete", 0]]))
+        if rng.random() < 0.5:
+            # a further thread that only polls is_subscribed (it takes the slots' read locks while the others signal)
+            progs = progs + [[["oissub", 0] for _ in range(rng.randrange(2, 5))]]
         cases.append(raw_case(progs, ["random", seed * 1000 + rng.randrange(1000), 120 if thorough else 40]))
         cases.append(raw_case(progs, ["pct", 3, seed * 1000 + rng.randrange(1000), 60 if thorough else 20]))
     # (b) families
